@@ -5,6 +5,7 @@ import (
 	"sync/atomic"
 
 	"github.com/failsafe-go/failsafe-go/common"
+	"github.com/failsafe-go/failsafe-go/internal/verifhook"
 )
 
 // ErrExecutionCanceled indicates that an execution was canceled by ExecutionResult.Cancel.
@@ -42,7 +43,9 @@ type executionResult[R any] struct {
 
 func (e *executionResult[R]) record(result *common.PolicyResult[R]) {
 	e.result.Store(&result)
+	verifhook.Yield("result.record.afterStore")
 	e.done.Store(true)
+	verifhook.Yield("result.record.beforeClose")
 	close(e.doneChan)
 }
 
@@ -79,6 +82,7 @@ func (e *executionResult[R]) Cancel() {
 		Error: ErrExecutionCanceled,
 		Done:  true,
 	})
+	verifhook.Yield("result.cancel.between")
 	if e.cancelFunc != nil {
 		e.cancelFunc()
 	}
